@@ -1041,6 +1041,14 @@ def substitute_equivalent(modules, log):
                 continue
             try:
                 ok, why = equiv.functions_equivalent(cur, base)
+                if not ok and (nf.EXTRA_PURE_FUNCS or nf.EXTRA_PURE_SELF_METHODS):
+                    # treating in-package pure callees as ordered call symbols instead proves other cases
+                    saved_p = (nf.EXTRA_PURE_FUNCS, nf.EXTRA_PURE_SELF_METHODS)
+                    nf.EXTRA_PURE_FUNCS, nf.EXTRA_PURE_SELF_METHODS = set(), set()
+                    try:
+                        ok, why = equiv.functions_equivalent(cur, base)
+                    finally:
+                        nf.EXTRA_PURE_FUNCS, nf.EXTRA_PURE_SELF_METHODS = saved_p
             except Exception as e:      # the prover failing means "not proven", never "equivalent"
                 ok, why = False, "prover error: %r" % (e,)
             if ok:
